@@ -4,6 +4,8 @@ import RustCcModel.Proofs.WeakInv2
 namespace RustCc
 open World
 
+variable {ex : Bool}
+
 @[simp] theorem wk_removeFromList_W (w : World) (y : Id) : (w.removeFromList y).W = w.W := by unfold removeFromList; split <;> rfl
 @[simp] theorem wk_removeFromList_K (w : World) (y : Id) : (w.removeFromList y).K = w.K := by unfold removeFromList; split <;> rfl
 @[simp] theorem wk_removeFromList_wstash (w : World) (y : Id) : (w.removeFromList y).wstash = w.wstash := by unfold removeFromList; split <;> rfl
@@ -127,16 +129,16 @@ macro "wk_simp" : tactic => `(tactic| (
     | (intros; simp [cycs_cons, Frame.cyc, upd_wslots_same', upd_hasMeta_same', upd_boxLive_same', updAll_wslots_same',
          updAll_hasMeta_same', updAll_boxLive_same']; done)))
 
-/-- `wneutral h`: the goal `WeakH w' E` follows from `h : WeakH w E` because the step touches nothing the invariant reads. -/
+/-- `wneutral h`: the goal `WeakH ex w' E` follows from `h : WeakH ex w E` because the step touches nothing the invariant reads. -/
 macro "wneutral " h:term : tactic => `(tactic| (
   refine WeakH.neutral $h ?_ ?_ ?_ ?_ ?_ ?_ ?_ ?_ ?_ <;> wk_simp))
 
-theorem WeakH.ret {w : World} {E : List Id} (h : WeakH w E) (r : Ret) : WeakH { w with ret := r } E := by wneutral h
-theorem WeakH.emit {w : World} {E : List Id} (h : WeakH w E) (e : Event) : WeakH (w.emit e) E := by wneutral h
-theorem WeakH.raise {w : World} {E : List Id} (h : WeakH w E) : WeakH w.raise E := by wneutral h
-theorem WeakH.raiseLogged {w : World} {E : List Id} (h : WeakH w E) : WeakH w.raiseLogged E := by wneutral h
-theorem WeakH.removeFromList {w : World} {E : List Id} (h : WeakH w E) (y : Id) : WeakH (w.removeFromList y) E := by wneutral h
-theorem WeakH.cloneOk {w : World} {E : List Id} (h : WeakH w E) (y : Id) : WeakH (w.cloneOk y) E := by wneutral h
-theorem WeakH.startCollect {w : World} {E : List Id} (h : WeakH w E) : WeakH w.startCollect E := by wneutral h
+theorem WeakH.ret {w : World} {E : List Id} (h : WeakH ex w E) (r : Ret) : WeakH ex { w with ret := r } E := by wneutral h
+theorem WeakH.emit {w : World} {E : List Id} (h : WeakH ex w E) (e : Event) : WeakH ex (w.emit e) E := by wneutral h
+theorem WeakH.raise {w : World} {E : List Id} (h : WeakH ex w E) : WeakH ex w.raise E := by wneutral h
+theorem WeakH.raiseLogged {w : World} {E : List Id} (h : WeakH ex w E) : WeakH ex w.raiseLogged E := by wneutral h
+theorem WeakH.removeFromList {w : World} {E : List Id} (h : WeakH ex w E) (y : Id) : WeakH ex (w.removeFromList y) E := by wneutral h
+theorem WeakH.cloneOk {w : World} {E : List Id} (h : WeakH ex w E) (y : Id) : WeakH ex (w.cloneOk y) E := by wneutral h
+theorem WeakH.startCollect {w : World} {E : List Id} (h : WeakH ex w E) : WeakH ex w.startCollect E := by wneutral h
 
 end RustCc
